@@ -10,10 +10,80 @@ import (
 type Value interface{}
 
 type Loc struct {
-	v   Value
-	sub []*Loc
+	v    Value
+	sub  []*Loc
+	view *viewCell
 }
-type PtrV struct{ loc *Loc }
+
+// viewCell makes a Loc a reinterpreting view (unsafe.Slice over a pointer cast)
+// onto cells of another width: little-endian, as on amd64.
+type viewCell struct {
+	base []*Loc // underlying scalar cells
+	bw   int    // width of a base cell
+	vw   int    // width of this view cell
+	idx  int    // index of this view cell (in units of vw) from the start of base
+}
+
+func (l *Loc) get() Value {
+	if l.view == nil {
+		return l.v
+	}
+	vc := l.view
+	if vc.vw < vc.bw {
+		per := vc.bw / vc.vw
+		b := vc.base[vc.idx/per].get().(*Term)
+		k := vc.idx % per
+		return Extract(k*vc.vw+vc.vw-1, k*vc.vw, b)
+	}
+	per := vc.vw / vc.bw
+	var r *Term
+	for k := per - 1; k >= 0; k-- {
+		b := vc.base[vc.idx*per+k].get().(*Term)
+		if r == nil {
+			r = b
+		} else {
+			r = Concat(r, b)
+		}
+	}
+	return r
+}
+
+func (l *Loc) set(v Value) {
+	if l.view == nil {
+		l.v = v
+		return
+	}
+	vc := l.view
+	t := v.(*Term)
+	if vc.vw < vc.bw {
+		per := vc.bw / vc.vw
+		cell := vc.base[vc.idx/per]
+		b := cell.get().(*Term)
+		k := vc.idx % per
+		lo, hi := k*vc.vw, k*vc.vw+vc.vw-1
+		r := t
+		if lo > 0 {
+			r = Concat(r, Extract(lo-1, 0, b))
+		}
+		if hi < vc.bw-1 {
+			r = Concat(Extract(vc.bw-1, hi+1, b), r)
+		}
+		cell.set(r)
+		return
+	}
+	per := vc.vw / vc.bw
+	for k := 0; k < per; k++ {
+		vc.base[vc.idx*per+k].set(Extract(k*vc.bw+vc.bw-1, k*vc.bw, t))
+	}
+}
+
+// PtrV is a pointer. arr/idx are set when the pointer was formed by indexing a
+// slice or array (needed by unsafe.Slice reinterpretation).
+type PtrV struct {
+	loc *Loc
+	arr []*Loc
+	idx int
+}
 type SliceV struct {
 	arr        []*Loc
 	off, n, cp int
@@ -201,7 +271,7 @@ func load(l *Loc, t types.Type) Value {
 		}
 		panic("load: aggregate loc with non-aggregate type " + t.String())
 	}
-	return l.v
+	return l.get()
 }
 
 func store(l *Loc, v Value) {
@@ -227,5 +297,5 @@ func store(l *Loc, v Value) {
 		}
 		return
 	}
-	l.v = v
+	l.set(v)
 }
